@@ -6,6 +6,7 @@ import Driver.Tiered
 import Driver.QCacheEng
 import Driver.StoreEng
 import Driver.PersistEng
+import Driver.ConfigEng
 
 open Driver
 
@@ -29,4 +30,5 @@ def main (args : List String) : IO UInt32 := do
   | ["qcache"] => loop stdin stdout QCacheEng.step none; return 0
   | ["store"] => loop stdin stdout StoreEng.step none; return 0
   | ["persist"] => loop stdin stdout PersistEng.step none; return 0
+  | ["config"] => loop stdin stdout ConfigEng.step (); return 0
   | _ => IO.eprintln "usage: kyro_driver <engine>"; return 2
